@@ -134,6 +134,15 @@ def stream_py(ctx, n):
         resp = Response()
         resp.fields.parse(text, strict=False)
         reqs.append('http py strategy ' + enc(text)); expect.append(Stream.get_read_strategy(resp))
+    # is_no_body over every status code x request method: the model's no-body set is a definition
+    # (HEAD, 1xx, 204, 304), the theorems mention it, this ties it to the code
+    from wpull.protocol.http.stream import is_no_body
+    from wpull.protocol.http.request import Request
+    for method in ('GET', 'HEAD', 'head', 'Head', 'POST', 'HEADER', 'HEA', 'PUT'):
+        request = Request('http://h/', method=method)
+        for code in range(100, 600):
+            reqs.append('http py nobody %s %d' % (enc(method), code))
+            expect.append('T' if is_no_body(request, Response(status_code=code, reason='x')) else 'F')
     got = ctx.model.ask(reqs)
     for q, e, g in zip(reqs, expect, got):
         if e != g:
@@ -522,14 +531,47 @@ def _replay(ctx, case, kind=None, where=None):
 
 
 # ------------------------------------------------------------------ entry points
+def _mk(head, framed=b'', payload=None, method='GET', version='HTTP/1.1', code=200, framing='length', wf=True):
+    m = H.Msg()
+    m.head, m.framed, m.payload = head, framed, framed if payload is None else payload
+    m.surplus, m.method, m.version, m.code, m.framing, m.wf = b'', method, version, code, framing, wf
+    m.coding, m.conn_close, m.tags = None, None, ['fixed']
+    return m
+
+
+def fixed_sequences():
+    """Lock-step pairs: a response with status `code` in every framing, delivered whole / cut right
+    after its header block / byte by byte, followed by an ordinary exchange on the same connection.
+    A body the protocol allows must be consumed with its response (and the connection kept); a
+    body the protocol forbids must not be waited for."""
+    out = []
+    second = _mk(b'HTTP/1.1 200 OK\r\nContent-Length: 6\r\n\r\n', b'second')
+    for code in (200, 201, 203, 204, 205, 206, 301, 304, 305, 400, 404, 500, 101):
+        nobody = 100 <= code < 200 or code in (204, 304)
+        st = b'HTTP/1.1 %d R\r\n' % code
+        shapes = [(st + b'Transfer-Encoding: chunked\r\n\r\n', b'0\r\n\r\n', b'', 'chunked'),
+                  (st + b'Transfer-Encoding: chunked\r\n\r\n', b'2;x\r\nhi\r\n0\r\nT: 1\r\n\r\n', b'hi', 'chunked'),
+                  (st + b'Content-Length: 3\r\n\r\n', b'abc', b'abc', 'length'),
+                  (st + b'Content-Length: 0\r\n\r\n', b'', b'', 'length')]
+        for head, framed, payload, framing in shapes:
+            if nobody:
+                framed, payload, framing = b'', b'', 'none'
+            m = _mk(head, framed, payload, code=code, framing=framing)
+            msg = m.message
+            for cuts in ([], [len(head)], list(range(1, len(msg)))):
+                exs = []
+                for k, (mm, cc) in enumerate(((m, cuts), (second, []))):
+                    exs.append({'segs': fakenet.segment(mm.message, cc), 'eof': False, 'method': 'GET', 'version': 'HTTP/1.1',
+                                'path': '/p%d' % k, 'msg': mm, 'surplus': b'', 'marker': b''})
+                out.append(exs)
+            if nobody:
+                break
+    return out
+
+
 def fixed_messages():
     """Hand-written messages at the decision points of the framing rules."""
-    def mk(head, framed=b'', payload=None, method='GET', version='HTTP/1.1', code=200, framing='length', wf=True):
-        m = H.Msg()
-        m.head, m.framed, m.payload = head, framed, framed if payload is None else payload
-        m.surplus, m.method, m.version, m.code, m.framing, m.wf = b'', method, version, code, framing, wf
-        m.coding, m.conn_close, m.tags = None, None, ['fixed']
-        return m
+    mk = _mk
     return [
         mk(b'HTTP/1.1 200 OK\r\nContent-Length: 3\r\n\r\n', b'abc'),
         mk(b'HTTP/1.1 200 OK\r\nContent-Length: 0\r\n\r\n', b''),
@@ -544,6 +586,15 @@ def fixed_messages():
         mk(b'HTTP/1.1 200 OK\r\nTransfer-Encoding: gzip\r\nTransfer-Encoding: chunked\r\n\r\n', b'3\r\nabc\r\n0\r\n\r\n', b'abc', framing='chunked'),
         mk(b'HTTP/1.1 200 OK\r\nContent-Length: 9\r\nTransfer-Encoding: chunked\r\n\r\n', b'3;x=y\r\nabc\r\n0\r\nT: 1\r\n\r\n', b'abc', framing='chunked'),
         mk(b'HTTP/1.0 200 OK\r\n\r\n', b'until close', framing='close', version='HTTP/1.0'),
+        # status codes next to the no-body ones are framed like any other response
+        mk(b'HTTP/1.1 205 Reset Content\r\nTransfer-Encoding: chunked\r\n\r\n', b'0\r\n\r\n', b'', code=205, framing='chunked'),
+        mk(b'HTTP/1.1 205 Reset Content\r\nContent-Length: 3\r\n\r\n', b'abc', code=205),
+        mk(b'HTTP/1.1 205 Reset Content\r\n\r\n', b'to the close', code=205, framing='close'),
+        mk(b'HTTP/1.1 203 NAI\r\nTransfer-Encoding: chunked\r\n\r\n', b'1\r\nz\r\n0\r\n\r\n', b'z', code=203, framing='chunked'),
+        mk(b'HTTP/1.1 305 Use Proxy\r\nContent-Length: 2\r\n\r\n', b'up', code=305),
+        mk(b'HTTP/1.1 404 Not Found\r\nContent-Length: 4\r\n\r\n', b'gone', code=404),
+        mk(b'HTTP/1.1 200 OK\r\nContent-Length: 0\r\n\r\n', b'', code=200),
+        mk(b'HTTP/1.1 199 Odd\r\nContent-Length: 3\r\n\r\n', code=199, framing='none'),
         mk(b'HTTP/1.1 200 OK\nContent-Length:2\n\n', b'ok'),
         mk(b'HTTP/1.1 200 OK\r\nX: a\r\n b\r\nContent-Length: 1\r\n\r\n', b'z'),
     ]
@@ -626,7 +677,7 @@ def _run(ctx, pid='C08'):
     # lock-step sequences on the real client
     srng = ctx.subrng('session')
     nseq = ctx.scale(120, 800)
-    seqs = []
+    seqs = [(exs, (True, False)) for exs in fixed_sequences()]
     for i in range(nseq):
         opts = H.OPTS[1 + (i // 2) % 3] if i % 2 else (True, False)      # half default, the rest spread over the other three
         seqs.append((gen_sequence(srng, opts), opts))
